@@ -16,13 +16,14 @@ Theorem C17_midline_extra_keyword_raises : C17_midline_extra_keyword_raises_stmt
 Proof. exact midline_extra_keyword_raises. Qed.
 Print Assumptions C17_midline_extra_keyword_raises.
 
-Theorem C12_midline_named_subset_scored : C12_midline_named_subset_scored_stmt.
-Proof. exact midline_named_subset_scored. Qed.
-Print Assumptions C12_midline_named_subset_scored.
+(** acceptable proposals are accepted; with the round trip: the complete statement *)
+Theorem C17_midline_literal_subset_accepted : C17_midline_literal_subset_accepted_stmt.
+Proof. exact midline_literal_subset_accepted. Qed.
+Print Assumptions C17_midline_literal_subset_accepted.
 
-Theorem C12_midline_named_subset_untouched : C12_midline_named_subset_untouched_stmt.
-Proof. exact midline_named_subset_untouched. Qed.
-Print Assumptions C12_midline_named_subset_untouched.
+Theorem C17_midline_literal_subset_complete : C17_midline_literal_subset_complete_stmt.
+Proof. exact midline_literal_subset_complete. Qed.
+Print Assumptions C17_midline_literal_subset_complete.
 
 (** observation: the hypothesis [mixing_kw_ok] is needed *)
 Theorem C17_midline_mixing_keyword_refuted : C17_midline_mixing_keyword_refuted_stmt.
@@ -71,6 +72,17 @@ Proof.
   split; [vm_compute; reflexivity|].
   split; [repeat constructor; cbn; intuition discriminate|]. split; [reflexivity|]. split; [vm_compute; reflexivity|].
   intros _ H. vm_compute in H. repeat (destruct H as [H|H]; [discriminate H|]). exact H.
+Qed.
+(** ... and the hypotheses of the acceptance theorems: the (out-of-sync) state is valid and the
+    proposal acceptable (mid_a = 7/2 is accepted by the linear family of every sub-model) *)
+Example C17m_acceptable : m_spread_valid C17m_mid /\ lit_accepts C17m_mid C17m_named C17m_qs
+  /\ ~ lit_accepts C17m_mid C17m_named [qc 3 7; qc 3 2; qc 7 2].
+Proof.
+  split; [apply m_spread_validb_ok; vm_compute; reflexivity|]. split; [apply lit_acceptsb_ok; vm_compute; reflexivity|].
+  intros [H _]. specialize (H ["mixing"] (qc 3 2)). cbn [C17m_named combine In] in H.
+  assert (E : in_unit (qc 3 2) = true).
+  { apply H; [right; left; reflexivity|]. intros Hin. vm_compute in Hin. repeat (destruct Hin as [Hin|Hin]; [discriminate Hin|]). exact Hin. }
+  vm_compute in E. discriminate E.
 Qed.
 (** the call returns normally; get_named_params returns the vector under the declared names *)
 Example C17m_returns :
